@@ -164,6 +164,28 @@ def stepOp (sys : Sys) (op : Json) : Sys × Json :=
          | .error e => (s, errJ e))
   | "event" =>
     let ev := jobj op "event"
+    if Obj.has ev "trigger!" then
+      -- the cron path of FindRules.Do: the named rule of this location, whatever its `when`
+      let fail (s : Sys) (e : String) : Sys × Json := (s, treeJ { err := some e, rules := [], values := [], aborted := true })
+      match Obj.get? ev "trigger!" with
+      | some (.str rid) =>
+        (match sys.at n (locGetRule c rid now) with
+         | (s, .error e) => fail s e
+         | (s, .ok body) =>
+           match ruleFromMap body with
+           | .error e => fail s e
+           | .ok r =>
+             let (s1, en) := match s.at n (locRuleEnabled c rid now) with
+               | (s1, .ok b) => (s1, b) | (s1, .error "disabled") => (s1, false) | (s1, .error "readDenied") => (s1, false) | (s1, .error _) => (s1, true)
+             let cands := [(rid, r, en)]
+             let t := processEvent (srchOf s1 c n now) n ev cands
+             let (s2, t') := applyEffects s1 c n now cands t
+             -- RuleDone: a one-shot schedule ('+…' or '!…') removes the rule once it has been evaluated
+             let s3 := if !t'.aborted && !t'.rules.isEmpty && (r.schedule.startsWith "+" || r.schedule.startsWith "!")
+               then (s2.at n (locRemRule c rid now)).1 else s2
+             (s3, treeJ t'))
+      | _ => fail sys "badTrigger"
+    else
     let spec := specDispatch sys n ev now
     (match sysSearchRulesAnc sys c n ev now with
      | (s, .error e) => (s, (treeJ { err := some e, rules := [], values := [], aborted := true }).setObjVal! "spec" spec)
